@@ -44,6 +44,9 @@ BUILDS = {
                          # the crate's own multicast tests (compiled, not run, by the native
                          # playback) need the class-c test fixtures
                          playback_features=["class-c"]),
+    # likewise for the non-default `certification` feature
+    "dev-eu868-cert": dict(_dev("region-eu868,certification", "eu868"),
+                           playback_features=["class-c", "certification"]),
     "phy": dict(package="lora-phy", args=["--features", "lorawan-radio"], swap=True,
                 # cargo-kani drops `dep/feature` arguments: give the optional lorawan-device dependency
                 # its region features in the scratch copy's manifest instead (build config only)
